@@ -221,7 +221,7 @@ CHECKS = {
 ALL = ['C%02d' % i for i in range(1, 21)]
 # checks validated on the unchanged tree (others stay under not_applicable)
 READY = ['C01', 'C02', 'C03', 'C04', 'C05', 'C06', 'C07', 'C08', 'C09',
-         'C10', 'C11', 'C12', 'C14', 'C15', 'C16', 'C17', 'C18', 'C19',
+         'C10', 'C11', 'C12', 'C13', 'C14', 'C15', 'C16', 'C17', 'C18', 'C19',
          'C20']
 
 NOT_YET = 'monitor not built yet in this round (see DESIGN.md section 3); ' \
